@@ -16,6 +16,9 @@ import RF.Driver.TokEquiv
 import RF.Driver.Idem
 import RF.Driver.Literal
 import RF.Driver.Comment
+import RF.Driver.ParseErrs
+import RF.Driver.Lists
+import RF.Driver.StringFmt
 /-!
 `rfmodel`: one request per line on stdin, one response per line on stdout.
 `?` is printed for a request no handler understands (the harness treats it as a protocol error,
@@ -40,7 +43,10 @@ def handlers : List (String → List String → Option String) :=
    RF.Driver.TokEquiv.handle,
    RF.Driver.Idem.handle,
    RF.Driver.Literal.handle,
-   RF.Driver.Comment.handle]
+   RF.Driver.Comment.handle,
+   RF.Driver.ParseErrs.handle,
+   RF.Driver.Lists.handle,
+   RF.Driver.StringFmt.handle]
 
 def dispatch (line : String) : String :=
   match (line.trimAscii.toString.splitOn " ").filter (· ≠ "") with
